@@ -305,7 +305,8 @@ fn deserialize<'a>(ty: &OwnedDataModelType, data: &'a [u8]) -> Result<(Value, &'
                 }
             }
         }
-        OwnedDataModelType::Schema => todo!(),
+        // The schema-of-schema kind is not supported yet: report it instead of panicking
+        OwnedDataModelType::Schema => Err(Error::ShouldSupportButDont),
     }
 }
 
